@@ -403,6 +403,33 @@ fn oracle_c11(case: &Case, outs: &[ImplRes]) -> Result<(), String> {
             let b: Vec<String> = items(outs[1].text).into_iter().filter(|t| t != "io:wb:0" && t != "nbwb").collect();
             expect_eq("embedded-hal source: results with would-block removed vs fault-free run", &a.join(" "), &b.join(" "))
         }
+        "eof-midstream" => {
+            // results before the end-of-input report, the report (None when nothing is pending, the exact
+            // count otherwise), then exactly what a fresh reader yields on the rest
+            let pre = items(outs[1].text);
+            let post = strip_trailing_none(items(outs[2].text));
+            let mut want: Vec<String> = Vec::new();
+            let mut pending = 0usize;
+            for t in strip_trailing_none(pre) {
+                if let Some(n) = t.strip_prefix("io:eof:") {
+                    pending = n.parse().unwrap_or(0);
+                } else {
+                    want.push(t);
+                }
+            }
+            let mut want_read = want.clone();
+            want.push(if pending == 0 { "none".to_string() } else { format!("io:eof:{}", pending) });
+            want.extend(post.clone());
+            let got = strip_trailing_none(items(outs[0].text));
+            expect_eq("mid-stream end of input via next()", &got.join(" "), &strip_trailing_none(want).join(" "))?;
+            // read(): the report is always explicit
+            want_read.push(format!("io:eof:{}", pending));
+            want_read.extend(post.iter().map(|t| t.clone()));
+            let got_r: Vec<String> = items(outs[3].text);
+            let got_r: Vec<String> = got_r.into_iter().take(want_read.len()).collect();
+            // the `post` run was recorded with next(): its final io:eof item (if any) is the same for read()
+            expect_eq("mid-stream end of input via read()", &got_r.join(" "), &want_read.join(" "))
+        }
         "other-error" => {
             if let Some(n) = case.aux.first() {
                 // independent expectation: no result precedes the fault, all bytes read so far are pending
